@@ -2,16 +2,121 @@ use crate::command::handlers::query::QueryCommandHandler;
 use crate::command::handlers::{
     auth, compare, define, flush, permissions, ping, remember, replay, show, store,
 };
-use crate::command::types::Command;
-use crate::engine::auth::AuthManager;
+use crate::command::types::{Command, EventSequence};
+use crate::engine::auth::{AuthManager, BYPASS_USER_ID};
+use crate::engine::materialize::MaterializationCatalog;
 use crate::engine::schema::SchemaRegistry;
 use crate::engine::shard::manager::ShardManager;
+use crate::shared::config::CONFIG;
+use crate::shared::path::absolutize;
 use crate::shared::response::render::Renderer;
 use crate::shared::response::{Response, StatusCode};
 use std::sync::Arc;
 use tokio::io::{AsyncWrite, AsyncWriteExt};
 use tokio::sync::RwLock;
-use tracing::{debug, error};
+use tracing::{debug, error, warn};
+
+fn push_query_event_types(
+    event_type: &str,
+    event_sequence: Option<&EventSequence>,
+    out: &mut Vec<String>,
+) {
+    out.push(event_type.to_string());
+    if let Some(seq) = event_sequence {
+        out.push(seq.head.event.clone());
+        out.extend(seq.links.iter().map(|(_, target)| target.event.clone()));
+    }
+}
+
+/// Event types whose events a read-style command (REPLAY, REMEMBER QUERY, SHOW,
+/// COMPARE) returns. A wildcard (`*`) expands to every defined
+/// event type, mirroring `EventScope::Wildcard`.
+async fn read_event_types(cmd: &Command, registry: &Arc<RwLock<SchemaRegistry>>) -> Vec<String> {
+    let mut types = Vec::new();
+    match cmd {
+        Command::Compare { queries } => {
+            for q in queries {
+                push_query_event_types(&q.event_type, q.event_sequence.as_ref(), &mut types);
+            }
+        }
+        Command::Replay { event_type, .. } => {
+            types.push(event_type.clone().unwrap_or_else(|| "*".to_string()));
+        }
+        Command::RememberQuery { spec } => {
+            if let Command::Query {
+                event_type,
+                event_sequence,
+                ..
+            } = spec.query.as_ref()
+            {
+                push_query_event_types(event_type, event_sequence.as_ref(), &mut types);
+            }
+        }
+        Command::ShowMaterialized { name } => {
+            // Unknown aliases (or an unreadable catalog) are reported by the handler itself.
+            let data_dir = absolutize(std::path::PathBuf::from(CONFIG.engine.data_dir.as_str()));
+            if let Ok(Some(entry)) =
+                MaterializationCatalog::load(&data_dir).and_then(|catalog| catalog.get(name))
+            {
+                if let Command::Query {
+                    event_type,
+                    event_sequence,
+                    ..
+                } = entry.spec.query.as_ref()
+                {
+                    push_query_event_types(event_type, event_sequence.as_ref(), &mut types);
+                }
+            }
+        }
+        _ => {}
+    }
+
+    if types.iter().any(|t| t == "*") {
+        types.retain(|t| t != "*");
+        types.extend(registry.read().await.get_all().keys().cloned());
+    }
+    types.sort();
+    types.dedup();
+    types
+}
+
+/// Enforces the same read-permission rule as the QUERY handler for commands whose
+/// handlers do not receive the authenticated user. Returns the error response to
+/// send when access is denied.
+async fn check_read_access(
+    cmd: &Command,
+    registry: &Arc<RwLock<SchemaRegistry>>,
+    auth_manager: Option<&Arc<AuthManager>>,
+    user_id: Option<&str>,
+) -> Option<Response> {
+    let auth_mgr = auth_manager?;
+    let Some(uid) = user_id else {
+        warn!(target: "sneldb::dispatch", command = ?cmd, "Authentication required");
+        return Some(Response::error(
+            StatusCode::Unauthorized,
+            "Authentication required",
+        ));
+    };
+    // Skip permission checks for bypass user
+    if uid == BYPASS_USER_ID {
+        return None;
+    }
+    for event_type in read_event_types(cmd, registry).await {
+        if !auth_mgr.can_read(uid, &event_type).await {
+            warn!(
+                target: "sneldb::dispatch",
+                user_id = uid,
+                event_type,
+                "Read permission denied"
+            );
+            return Some(Response::error(
+                StatusCode::Forbidden,
+                &format!("Read permission denied for event type '{}'", event_type),
+            ));
+        }
+    }
+    None
+}
 
 pub async fn dispatch_command<W: AsyncWrite + Unpin>(
     cmd: &Command,
@@ -25,6 +130,20 @@ pub async fn dispatch_command<W: AsyncWrite + Unpin>(
     use Command::*;
 
     debug!(target: "sneldb::dispatch", command = ?cmd, "Dispatching command");
+
+    if matches!(
+        cmd,
+        RememberQuery { .. }
+            | Compare { .. }
+            | Replay { .. }
+            | ShowMaterialized { .. }
+    ) {
+        if let Some(resp) = check_read_access(cmd, registry, auth_manager, user_id).await {
+            writer.write_all(&renderer.render(&resp)).await?;
+            writer.flush().await?;
+            return Ok(());
+        }
+    }
 
     match cmd {
         Store { .. } => {
